@@ -50,3 +50,30 @@ func panicSite(stack string) string {
 	}
 	return msg
 }
+
+func init() {
+	registerCheck("C12", CheckC12)
+}
+
+// fileContract are the clauses of the output-file contract C12 re-uses from C10.
+var fileContract = map[string]bool{"exit0-without-output": true, "exit0-incomplete-output": true, "out-changed-on-failure": true, "input-modified": true}
+
+func judgeC12(w *World, r *Result) *Violation {
+	if v := monitorC12(w, r); v != nil {
+		return v
+	}
+	if c, d := contract(w, r, r.Exit, nil); c != "" && fileContract[c] {
+		return &Violation{Property: "C12", Sig: "file-contract:" + c, Detail: d, Worlds: []*World{w}, Mode: "c12", Expect: []string{digest(r)}}
+	}
+	return nil
+}
+
+func init() {
+	replayModes["c12"] = func(t Target, v *Violation) (string, string) {
+		r := Exec(t, v.Worlds[0])
+		if nv := judgeC12(v.Worlds[0], r); nv != nil {
+			return nv.Sig, nv.Detail
+		}
+		return "", ""
+	}
+}
